@@ -1,5 +1,6 @@
 """C11 - Seeding creates every selected tile, nothing else, and survives interruption.
 
+The coverage the oracle uses is computed from the configured coverage by an independent dense transformation.
 Seed tasks are built through the real configuration path (mapproxy.yaml dict + seed.yaml dict ->
 ProxyConfiguration -> SeedingConfiguration.seeds()) and run in-process with mapproxy.seed.seeder.seed();
 only the worker pool is replaced (by a recorder of what is handed to process()) and the clock used by
@@ -12,12 +13,14 @@ Oracle (flat, written from the definition of a tile pyramid, not from the walker
              (with skip_geoms_for_last_levels > 0: farther than 0.1 px from the coverage *extent*)
   resume     for every interruption point k and the progress file as it was at k:
              handed(run interrupted at k) + handed(continued run) >= handed(uninterrupted run)
+  hand-over  (separate sub-check on the real TileWorkerPool) every batch given to process() reaches exactly one worker
 See DESIGN.md section 12.
 """
 import contextlib
 import hashlib
 import io
 import json
+import logging
 import math
 import os
 import shutil
@@ -36,32 +39,41 @@ RULE = ('Hypothesis-generated seed configurations, built through the real mappro
         'meta size 1-4 per axis x levels (lists with gaps, from/to ranges, all) x coverage (none, bbox, WKT polygons '
         'incl. concave/with hole, union/intersection/difference, MultiCoverage of 2-3 parts, each optionally given in '
         'another SRS; edges placed on / 0.05-20 px beside tile edges of a focus level, inside, across and beyond the '
-        'grid) x skip_geoms_for_last_levels 0-2 x refresh mode x rescaled-tile tasks x which progress reports are saved. '
+        'grid; in a quarter of the cases a several degrees wide bbox given in a non-cylindrically related SRS - EPSG:4326 on '
+        '25832/31467/3035 grids, 25832 on 4326/3857 grids - whose curved edge crosses a small regional grid with meta tiles '
+        '0.4-3.3 times as large as the sliver between the edge\'s chord and arc) x skip_geoms_for_last_levels 0-2 x refresh mode x rescaled-tile tasks x which progress reports are saved. '
         'Per task every interruption point k (each process() call) is judged against the continued run (continued '
         'runs are executed once per distinct progress-file state; real interrupted runs for all k when <= 60 calls, '
         'sampled above; some continued runs are interrupted a second time). A case is non-trivial when the pyramid is '
         'irregular (not factor 2 / non-nesting / grid not a whole number of tiles) or the coverage is partial, AND at '
         'least one interruption point lies strictly inside the walk after a saved progress; distinct = distinct '
-        'concrete configurations.')
+        'concrete configurations. Plus ~1000 hand-over histories per run through the real TileWorkerPool (pool size 1-3, '
+        '2-14 batches, workers paused/free, 0-3 consecutive Queue.Full per batch, dead pool); non-trivial = at least one '
+        'Queue.Full was raised.')
 ASSUMPTIONS = [
-    '"work done" = meta tiles handed to TileWorkerPool.process (tiles still queued in a killed worker pool are not modelled)',
-    'the task coverage is the SeedTask.coverage object as produced by the real loaders (after MapProxy\'s own SRS '
-    'transformation and 1e-6 simplification); the oracle only reads its bbox / shapely geometry and does its own '
-    'intersection arithmetic (exact rationals for bboxes, shapely predicates with a 1e-6-px guard band for polygons)',
+    '"work done" = meta tiles handed to TileWorkerPool.process; the hand-over itself (process() -> queue -> worker, '
+    'stop()) is checked separately on the real pool with thread workers and a queue whose put() timeout is virtual '
+    '(multiprocessing transport, killed workers with queued batches are not modelled)',
+    'the reference coverage is computed from the CONFIGURED coverage in its own SRS with an independent pyproj '
+    'transformation (bbox in another SRS = bounding box of its outline there, 128 samples per side; polygons with 128 '
+    'points per edge; union/intersection/difference evaluated in the SRS of their first member) - never from '
+    'SeedTask.coverage. Where a transformation was needed, the tolerance band is the measured difference between the '
+    'dense result and the documented sampling (16 outline points for bboxes, vertices only for polygons) plus 0.25 px '
+    'of the judged level; polygons additionally get 2e-6 of their extent (the loader simplifies them by 1e-6)',
     'tile geometry from the exact-rational reference grid (refgrid.py) over the configured floats; grid_sizes are '
     'taken from the grid object (their correctness is C03)',
     'the documented 0.1-px inset is granted: a tile is required only if the coverage overlaps its bbox by more than 0.1 px of '
     'its own level in both axes, measured inside the grid bbox (in non-nesting pyramids: overlaps one of the pieces into which '
     'the tile edges of the coarser levels cut that bbox), and forbidden only if it is farther than 0.1 px from the coverage',
     'with skip_geoms_for_last_levels > 0 extra tiles are only demanded to be inside the grid, of a chosen level and '
-    'within 0.1 px of the coverage extent (bbox)',
+    'within 0.1 px of the extent the task itself starts from (SeedTask.coverage.extent)',
     'a walk that raises GridError did not run to completion: counted as aborted, never judged',
     'interruption = exception (SeedInterrupted or KeyboardInterrupt) raised by process(); the progress file is what '
     'ProgressStore.write left on disk at that moment',
 ]
 
 ETA = Fr(1, 10 ** 6)          # relative guard band around the 0.1-px inset
-N_QUICK = 6400
+N_QUICK = 5600
 N_THOROUGH = 120000
 MAX_CELLS = 400               # generated tasks are kept below this many meta tiles (flat estimate)
 REAL_ALL_K = 30               # really interrupted runs for every k up to this many process() calls, 16 sampled k above
@@ -72,6 +84,10 @@ SIG_SPLIT = 'C11/missing-tile/split-inset'
 SIG_GAP = 'C11/missing-tile/ancestor-grid-gap'
 SIG_REACHABLE = 'C11/missing-tile/reachable-by-the-walk'
 SIG_UNEXPLAINED = 'C11/missing-tile/unexplained'
+SIG_COVTRANS = 'C11/missing-tile/coverage-cut-by-srs-transformation'
+SIG_HANDOFF_LOST = 'C11/handoff/batch-never-reaches-a-worker'
+SIG_HANDOFF_DUP = 'C11/handoff/batch-delivered-twice'
+SIG_HANDOFF_DEAD = 'C11/handoff/dead-pool-not-reported'
 SIG_FORBIDDEN = 'C11/forbidden-tile/outside-coverage'
 SIG_FORBIDDEN_EXTENT = 'C11/forbidden-tile/outside-extent-with-skip-geoms'
 SIG_OUTSIDE_GRID = 'C11/handed/outside-grid'
@@ -82,7 +98,7 @@ SIG_RESUME = 'C11/resume/lost-tiles'
 SIG_RESUME_ABORT = 'C11/resume/continued-run-aborts'
 EXCUSABLE = (SIG_INSET, SIG_SPLIT, SIG_GAP)
 PRIORITY = [SIG_OUTSIDE_GRID, SIG_WRONG_LEVEL, SIG_UNALIGNED, SIG_PARTIAL_META, SIG_FORBIDDEN, SIG_FORBIDDEN_EXTENT,
-            SIG_REACHABLE, SIG_UNEXPLAINED, SIG_RESUME, SIG_RESUME_ABORT, SIG_INSET, SIG_SPLIT, SIG_GAP]
+            SIG_HANDOFF_LOST, SIG_HANDOFF_DUP, SIG_HANDOFF_DEAD, SIG_REACHABLE, SIG_COVTRANS, SIG_UNEXPLAINED, SIG_RESUME, SIG_RESUME_ABORT, SIG_INSET, SIG_SPLIT, SIG_GAP]
 
 
 # the progress file is rewritten thousands of times per case: keep the scratch dir on tmpfs when there is one
@@ -406,60 +422,174 @@ class Pyramid(object):
         return True
 
 
+# reference coverage: computed from the CONFIGURED coverage (case['coverage']) in its own SRS with an independent,
+# dense pyproj transformation - never from SeedTask.coverage
+
+N_DENSE = 128        # segments per bbox side / points per polygon edge of the dense reference
+N_DOC = 4            # segments per bbox side MapProxy documents for bbox transformations (with_points=16)
+BAND_PX = Fr(1, 4)   # extra tolerance (px of the judged level) wherever a coverage had to be transformed
+_TRANSFORMERS = {}
+
+
+def _tr(src, dst, pts):
+    import pyproj
+    key = (src, dst)
+    if key not in _TRANSFORMERS:
+        _TRANSFORMERS[key] = pyproj.Transformer.from_crs(src, dst, always_xy=True)
+    xs, ys = _TRANSFORMERS[key].transform([p[0] for p in pts], [p[1] for p in pts])
+    return list(zip(xs, ys))
+
+
+def _hull_box(b, src, dst, n):
+    """bounding box, in dst, of the outline of bbox b (given in src) sampled with n segments per side"""
+    pts = []
+    for i in range(n + 1):
+        t = i / float(n)
+        x = b[0] + (b[2] - b[0]) * t
+        y = b[1] + (b[3] - b[1]) * t
+        pts += [(x, b[1]), (x, b[3]), (b[0], y), (b[2], y)]
+    out = [q for q in _tr(src, dst, pts) if math.isfinite(q[0]) and math.isfinite(q[1])]
+    if not out:
+        raise core.HarnessError('reference transformation of %r %s->%s has no finite point' % (b, src, dst))
+    return (min(q[0] for q in out), min(q[1] for q in out), max(q[0] for q in out), max(q[1] for q in out))
+
+
+def _tr_geom(g, src, dst, k):
+    """polygon(s) g transformed src->dst with every edge sampled at k points"""
+    import shapely.geometry
+    import shapely.ops
+
+    def ring(coords):
+        coords = list(coords)
+        pts = []
+        for (x0, y0), (x1, y1) in zip(coords[:-1], coords[1:]):
+            for i in range(k):
+                t = i / float(k)
+                pts.append((x0 + (x1 - x0) * t, y0 + (y1 - y0) * t))
+        pts.append(coords[-1])
+        return _tr(src, dst, pts)
+
+    polys = []
+    for poly in (g.geoms if hasattr(g, 'geoms') else [g]):
+        if poly.geom_type != 'Polygon' or poly.is_empty:
+            continue
+        q = shapely.geometry.Polygon(ring(poly.exterior.coords), [ring(r.coords) for r in poly.interiors])
+        if not q.is_valid:
+            q = q.buffer(0)
+        polys.append(q)
+    return shapely.ops.unary_union(polys)
+
+
+def _ref_part(c, dst, dense):
+    """('box', floats) or ('geom', shapely) in SRS dst, following the documented meaning of the configuration:
+    a bbox coverage in another SRS is the bounding box of its outline there; polygons keep their shape; union /
+    intersection / difference are evaluated in the SRS of their first member.  -> (kind, value, transformed?)"""
+    import shapely.geometry
+    import shapely.ops
+    import shapely.wkt
+    if c['type'] == 'bbox':
+        if c['srs'] == dst:
+            return 'box', tuple(c['bbox']), False
+        return 'box', _hull_box(c['bbox'], c['srs'], dst, N_DENSE if dense else N_DOC), True
+    if c['type'] == 'polygon':
+        g = shapely.ops.unary_union([shapely.wkt.loads(w) for w in c['wkt']])
+        if c['srs'] == dst:
+            return 'geom', g, False
+        return 'geom', _tr_geom(g, c['srs'], dst, N_DENSE if dense else 1), True
+    first = c['parts'][0]['srs']
+    geoms, transformed = [], False
+    for part in c['parts']:
+        kind, v, t = _ref_part(part, first, dense)
+        transformed = transformed or t
+        geoms.append(shapely.geometry.box(*v) if kind == 'box' else v)
+    if c['type'] == 'union':
+        g = shapely.ops.unary_union(geoms)
+    elif c['type'] == 'intersection':
+        g = geoms[0].intersection(geoms[1])
+    else:
+        g = geoms[0].difference(geoms[1])
+    if first != dst:
+        return 'geom', _tr_geom(g, first, dst, N_DENSE if dense else 1), True
+    return 'geom', g, transformed
+
+
 class Coverage(object):
-    """Oracle-side view of the task coverage: list of exact bboxes and shapely geometries (grid SRS)."""
+    """Reference view of the configured coverage in the grid SRS.  Every part has an `inner` and an `outer` version:
+    identical (and exact) when nothing had to be transformed; otherwise inner = dense reference cut down to what the
+    documented sampling (16 outline points for bboxes, vertices for polygons) keeps, outer = dense reference extended
+    by what that sampling adds - the measured difference between the two is the tolerance band, plus BAND_PX."""
 
-    def __init__(self, cov):
-        self.boxes = []
-        self.geoms = []
-        self._collect(cov)
-        bs = [b for b in self.boxes] + [tuple(Fr(v) for v in g.bounds) for g in self.geoms]
+    def __init__(self, conf, grid_srs, grid_bbox):
+        import shapely.geometry
+        self.parts = []
+        self.transformed = False
+        if not conf:
+            conf = [{'type': 'bbox', 'srs': grid_srs, 'bbox': list(grid_bbox)}]
+        for c in conf:
+            kind, dense, t = _ref_part(c, grid_srs, True)
+            if not t:
+                inner = outer = dense
+            else:
+                self.transformed = True
+                kind2, doc, _ = _ref_part(c, grid_srs, False)
+                if kind == 'box':
+                    inner = (max(dense[0], doc[0]), max(dense[1], doc[1]), min(dense[2], doc[2]), min(dense[3], doc[3]))
+                    outer = (min(dense[0], doc[0]), min(dense[1], doc[1]), max(dense[2], doc[2]), max(dense[3], doc[3]))
+                else:
+                    inner, outer = dense.intersection(doc), dense.union(doc)
+            if kind == 'box':
+                bounds = outer
+                inner, outer = tuple(Fr(v) for v in inner), tuple(Fr(v) for v in outer)
+            else:
+                if outer.is_empty:
+                    continue
+                bounds = outer.bounds
+            # loaders simplify polygons with a tolerance of 1e-6 of their extent
+            margin = Fr(0) if kind == 'box' else Fr(2e-6 * max(bounds[2] - bounds[0], bounds[3] - bounds[1]))
+            self.parts.append({'kind': kind, 'inner': inner, 'outer': outer, 'fuzzy': t, 'margin': margin,
+                               'bounds': tuple(Fr(v) for v in bounds)})
+        bs = [p['bounds'] for p in self.parts] or [tuple(Fr(v) for v in grid_bbox)]
         self.bounds = (min(b[0] for b in bs), min(b[1] for b in bs), max(b[2] for b in bs), max(b[3] for b in bs))
+        self._box = shapely.geometry.box
 
-    def _collect(self, cov):
-        if hasattr(cov, 'coverages'):
-            for c in cov.coverages:
-                self._collect(c)
-        elif getattr(cov, 'geom', None) is not None:
-            self.geoms.append(cov.geom)
-        else:
-            self.boxes.append(tuple(Fr(v) for v in cov.bbox))
+    def _tol(self, part, res):
+        return part['margin'] + (BAND_PX * res if part['fuzzy'] else 0)
 
-    def hits(self, rect):
-        """does the coverage have a point in the closed rectangle `rect` (exact for bboxes)?"""
-        if rect[0] > rect[2] or rect[1] > rect[3]:
-            return False
-        for b in self.boxes:
-            if b[0] <= rect[2] and b[2] >= rect[0] and b[1] <= rect[3] and b[3] >= rect[1]:
-                return True
-        if self.geoms:
-            import shapely.geometry
-            box = shapely.geometry.box(*[float(v) for v in rect])
-            for g in self.geoms:
-                if g.intersects(box):
+    def hits(self, rect, res, view='outer'):
+        """does the coverage (outer view: generously, inner view: surely) have a point in the closed rectangle?"""
+        for p in self.parts:
+            t = self._tol(p, res)
+            r = grow(rect, t if view == 'outer' else -t)
+            if r[0] > r[2] or r[1] > r[3]:
+                continue
+            g = p[view]
+            if p['kind'] == 'box':
+                if g[0] <= r[2] and g[2] >= r[0] and g[1] <= r[3] and g[3] >= r[1]:
                     return True
+            elif g.intersects(self._box(*[float(v) for v in r])):
+                return True
         return False
 
-    def overlaps_by(self, rect, s):
-        """is the part of the coverage inside `rect` more than `s` wide and more than `s` high?"""
-        if not (rect[2] - rect[0] > s and rect[3] - rect[1] > s):
-            return False
-        for b in self.boxes:
-            if min(b[2], rect[2]) - max(b[0], rect[0]) > s and min(b[3], rect[3]) - max(b[1], rect[1]) > s:
-                return True
-        if self.geoms:
-            import shapely.geometry
-            box = shapely.geometry.box(*[float(v) for v in rect])
-            fs = float(s)
-            for g in self.geoms:
-                if not g.intersects(box):
-                    continue
-                part = g.intersection(box)
-                if part.is_empty:
-                    continue
-                x0, y0, x1, y1 = part.bounds
-                if x1 - x0 > fs and y1 - y0 > fs:
+    def overlaps_by(self, rect, s, res):
+        """is the part of the (inner) coverage inside `rect` surely more than `s` wide and more than `s` high?"""
+        for p in self.parts:
+            s2 = s + self._tol(p, res)
+            if not (rect[2] - rect[0] > s2 and rect[3] - rect[1] > s2):
+                continue
+            g = p['inner']
+            if p['kind'] == 'box':
+                if min(g[2], rect[2]) - max(g[0], rect[0]) > s2 and min(g[3], rect[3]) - max(g[1], rect[1]) > s2:
                     return True
+                continue
+            box = self._box(*[float(v) for v in rect])
+            if not g.intersects(box):
+                continue
+            part = g.intersection(box)
+            if part.is_empty:
+                continue
+            x0, y0, x1, y1 = part.bounds
+            if x1 - x0 > float(s2) and y1 - y0 > float(s2):
+                return True
         return False
 
 
@@ -525,9 +655,9 @@ def reachable(pyr, cov, E, cell, piece, mode, last_level, allow_oog=False):
                     continue
                 r = pyr.rect(ax, ay, z)
                 if mode == 'strict':
-                    if not cov.hits(grow(r, -pyr.tau(z))):
+                    if not cov.hits(grow(r, -pyr.tau(z)), pyr.ref.res[z], 'inner'):
                         continue
-                elif not cov.hits(grow(r, pyr.tau(z))):
+                elif not cov.hits(grow(r, pyr.tau(z)), pyr.ref.res[z]):
                     continue
                 R2 = isect(R, r)
                 if not overlap_pos(grow(R2, -pyr.tau(z)), target):
@@ -557,7 +687,8 @@ def _classify_missing(pyr, cov, E, cell, req_pieces, last_level):
         for piece in req_pieces:
             if reachable(pyr, cov, E, cell, piece, mode, last_level, allow_oog=oog):
                 return sig
-    return SIG_UNEXPLAINED
+    # not even a descent without insets and grid limits gets there: the task's own extent does not contain the piece
+    return SIG_COVTRANS if cov.transformed else SIG_UNEXPLAINED
 
 
 # ------------------------------------------------------------------------------------------------
@@ -601,9 +732,9 @@ def required_cells(pyr, cov, z):
     out = []
     for cx in range(x0, x1 + 1):
         for cy in range(y0, y1 + 1):
-            if not cov.hits(pyr.rect(cx, cy, z)):
+            if not cov.hits(pyr.rect(cx, cy, z), pyr.ref.res[z]):
                 continue
-            req = [p for p in (isect(p, pyr.ref.bbox) for p in pieces(pyr, (cx, cy, z))) if cov.overlaps_by(p, s)]
+            req = [p for p in (isect(p, pyr.ref.bbox) for p in pieces(pyr, (cx, cy, z))) if cov.overlaps_by(p, s, pyr.ref.res[z])]
             if req:
                 out.append(((cx, cy, z), req))
     return out
@@ -663,7 +794,7 @@ def check_handed(env, full, pyrs, covs, Es, excuse, st_, out):
             handed_cells[ti].add(cell)
             s = pyr.delta(z) * (1 + ETA) + pyr.tau(z)
             r = grow(pyr.rect(*cell), s)
-            if not cov.hits(r):
+            if not cov.hits(r, pyr.ref.res[z]):
                 # farther than 0.1 px (own level) from every part of the coverage
                 if skip == 0:
                     bad = (SIG_FORBIDDEN, 'meta tile %r (level %d) handed, but it is farther than 0.1 px from the coverage'
@@ -724,7 +855,7 @@ def evaluate(case, st_, excuse=(), size_guard=True):
                 st_.excluded['empty-coverage'] += 1
                 return out, None
             pyr = Pyramid(task.grid, case['meta'])
-            cov = Coverage(task.coverage)
+            cov = Coverage(case['coverage'], case['grid']['srs'], task.grid.bbox)
             pyrs.append(pyr)
             covs.append(cov)
             Es.append(tuple(Fr(v) for v in task.coverage.extent.bbox_for(task.grid.srs)))
@@ -823,6 +954,9 @@ def evaluate(case, st_, excuse=(), size_guard=True):
                'outcome:complete', 'interrupt-exc:' + exc_kind]
         if case.get('rescale'):
             cl.append('rescale:' + case['rescale'])
+        if case.get('band'):
+            cl += ['band:' + case['band']['pair'], 'band:edge-' + case['band']['side'],
+                   'band:sliver>=1-meta-tile' if case['band']['sliver_in_meta_tiles'] >= 1 else 'band:sliver<1-meta-tile']
         cl += ['coverage:' + c for c in _coverage_classes(case['coverage'])]
         if inside_after_save:
             cl.append('resume:interruption-after-saved-progress')
@@ -989,8 +1123,29 @@ def specs(draw):
                       st.sampled_from([0.1, 0.3, 0.6])))),
         'k_picks': [draw(unit) for _ in range(16)],
         'exc': draw(st.sampled_from(['seed', 'keyboard'])),
+        # a good share of cases: wide bbox coverage in a non-cylindrical SRS pair, one (curved) edge crossing a small
+        # regional grid whose tiles are about as large as the sliver between the edge's chord and its arc
+        'band': draw(st.one_of(st.none(), st.none(), st.none(), band_specs())),
     }
     return spec
+
+
+BAND_PAIRS = [('EPSG:25832', 'EPSG:4326'), ('EPSG:25832', 'EPSG:4326'), ('EPSG:31467', 'EPSG:4326'),
+              ('EPSG:3035', 'EPSG:4326'), ('EPSG:4326', 'EPSG:25832'), ('EPSG:3857', 'EPSG:25832')]
+BAND_CENTRE = {'EPSG:25832': 9.0, 'EPSG:31467': 9.0, 'EPSG:3035': 10.0}
+
+
+@st.composite
+def band_specs(draw):
+    return {'pair': draw(st.sampled_from(BAND_PAIRS)),
+            'edge': draw(st.sampled_from(['auto', 'auto', 'auto', 's', 'n', 'w', 'e'])),
+            'half': draw(st.sampled_from([1.5, 2.0, 3.0, 3.0, 3.5])),      # half width (degrees / 70 km units)
+            'off': draw(st.sampled_from([0.0, 0.0, 0.3, -0.3, 1.0, -1.0])),  # centre offset from the central meridian
+            'lat': draw(st.sampled_from([44.0, 47.5, 50.0, 50.0, 53.0, 57.0])),
+            'ratio': draw(st.sampled_from([0.3, 0.45, 0.45, 0.7, 1.2, 2.5])),  # meta tile span / sliver
+            'nc': (draw(st.integers(5, 11)), draw(st.integers(4, 8))),
+            'shift': (draw(st.sampled_from([0.0, 0.0, 0.25, -0.25])), draw(st.sampled_from([0.5, 0.5, 0.3, 0.8]))),
+            'steps': draw(st.sampled_from([(2.0, 2.0), (2.0, 2.0), (3.0, 2.0), (2.0, 1.5), (4.0,)]))}
 
 
 def _grid_from_spec(g):
@@ -1040,8 +1195,71 @@ def _grid_from_spec(g):
     return out
 
 
+def concretize_band(spec):
+    """wide bbox coverage given in another, non-cylindrically related SRS; small regional grid on its most curved edge"""
+    b = spec['band']
+    gsrs, csrs = b['pair']
+    if csrs == 'EPSG:4326':
+        lc = BAND_CENTRE[gsrs] + b['off']
+        box = [lc - b['half'], b['lat'], lc + b['half'], b['lat'] + 1.0 + 0.25 * b['half']]
+    else:
+        xc = 500000.0 + b['off'] * 70000.0
+        y0 = _tr('EPSG:4326', csrs, [(9.0, b['lat'])])[0][1]
+        box = [xc - b['half'] * 70000.0, y0, xc + b['half'] * 70000.0, y0 + 120000.0]
+    dense = _hull_box(box, csrs, gsrs, N_DENSE)
+    corner = _hull_box(box, csrs, gsrs, 1)
+    sliver = [abs(dense[i] - corner[i]) for i in range(4)]
+    side = {'s': 1, 'n': 3, 'w': 0, 'e': 2}.get(b['edge'])
+    if side is None:
+        side = max(range(4), key=lambda i: sliver[i])
+    S = sliver[side]
+    ext = max(dense[2] - dense[0], dense[3] - dense[1])
+    if S < ext * 1e-5:
+        S = ext / 200.0           # a straight edge: nothing can be lost there, still a legitimate task
+    meta = list(spec['meta'])
+    tile_size = list(spec['grid']['tile_size'])
+    span = S * b['ratio']        # span of one meta tile of the finest level
+    res = span / (max(meta) * max(tile_size))
+    ncx, ncy = b['nc']
+    w, h = ncx * meta[0] * tile_size[0] * res, ncy * meta[1] * tile_size[1] * res
+    # centre of the grid: on the edge, where the outline is farthest out
+    cx, cy = (dense[0] + dense[2]) / 2.0, (dense[1] + dense[3]) / 2.0
+    if side in (1, 3):
+        cy = dense[side] + (S * b['shift'][1] if side == 1 else -S * b['shift'][1])
+        cx += b['shift'][0] * (dense[2] - dense[0])
+    else:
+        cx = dense[side] + (S * b['shift'][1] if side == 0 else -S * b['shift'][1])
+        cy += b['shift'][0] * (dense[3] - dense[1])
+    rl = [res]
+    for q in b['steps']:
+        rl.insert(0, rl[0] * q)
+    gd = {'srs': gsrs, 'origin': spec['grid']['origin'], 'tile_size': tile_size,
+          'bbox': [cx - w / 2.0, cy - h / 2.0, cx + w / 2.0, cy + h / 2.0], 'mode': 'custom', 'res': rl}
+    if gsrs == 'EPSG:4326' and not (-84.0 < gd['bbox'][1] and gd['bbox'][3] < 84.0):
+        return None, 'coverage-degenerate'
+    n = len(rl)
+    lv = spec['levels']
+    if lv['kind'] == 'list':
+        chosen = [z for z in range(n) if not lv['mask'][z % 12]]
+        if n - 1 not in chosen:
+            chosen.append(n - 1)
+        levels = {'kind': 'list', 'levels': chosen}
+    elif lv['kind'] == 'range':
+        levels = {'kind': 'range', 'from': lv['from'] if lv['from'] is None else min(lv['from'], n - 1), 'to': n - 1}
+    else:
+        levels = {'kind': 'all'}
+    cov = {'type': 'bbox', 'srs': csrs, 'bbox': box, 'other_srs': True, 'placement': 'band'}
+    case = {'grid': gd, 'meta': meta, 'levels': levels, 'coverage': [cov], 'skip': spec['skip'],
+            'refresh': spec['refresh'], 'rescale': spec['rescale'], 'save': spec['save'],
+            'k_picks': spec['k_picks'], 'exc': spec['exc'],
+            'band': {'pair': '%s on %s' % (csrs, gsrs), 'side': 'wsen'[side], 'sliver_in_meta_tiles': round(1.0 / b['ratio'], 2)}}
+    return case, None
+
+
 def concretize(spec):
     """-> (case, None) or (None, reason).  Deterministic; the case holds plain numbers only."""
+    if spec.get('band'):
+        return concretize_band(spec)
     from mapproxy.srs import SRS
     gd = _grid_from_spec(spec['grid'])
     try:
@@ -1254,6 +1472,9 @@ def minimise(case, sig, budget=24):
     """bounded structural reduction of a violating concrete case (keeps the root-cause signature)"""
     scratch = core.Stats()
 
+    if case.get('handoff'):
+        return case, None
+
     def still(c):
         try:
             out, info = evaluate(c, scratch, excuse=())
@@ -1309,10 +1530,164 @@ def minimise(case, sig, budget=24):
     return case, msg
 
 
+# ------------------------------------------------------------------------------------------------
+# sub-check: hand-off through the REAL TileWorkerPool (the walks above replace the pool by a recorder)
+#
+# The real pool (real process()/stop()) is run with thread workers and a queue whose put() timeout is virtual: when
+# the queue really is full (the harness pauses the workers), put() raises Queue.Full as often as the generated
+# script says - what a real queue does after 5 s each - and then lets the workers drain it.  Every batch given to
+# process() has to arrive at exactly one worker; a pool whose workers are all dead has to raise SeedInterrupted.
+
+
+@st.composite
+def handoff_specs(draw):
+    n = draw(st.integers(2, 14))
+    return {'handoff': True, 'size': draw(st.integers(1, 3)),
+            'batches': [{'pause': draw(st.sampled_from([False, False, True])), 'full': draw(st.integers(0, 3)),
+                         'tiles': draw(st.integers(1, 4))} for _ in range(n)],
+            'dead_at': draw(st.sampled_from([None, None, None, None, 'end'])),
+            'progress_logger': draw(st.booleans())}
+
+
+def run_handoff(case):
+    import queue as pyqueue
+    import threading
+    from mapproxy.seed import seeder
+
+    gate = threading.Event()
+    gate.set()
+    lock = threading.Lock()
+    received = []
+    state = {'fulls': 0, 'raised': 0, 'kill': False}
+
+    class ScriptedQueue(pyqueue.Queue):
+        def put(self, item, block=True, timeout=None):
+            if item is not None and timeout is not None and self.full():
+                if state['fulls'] > 0:
+                    state['fulls'] -= 1
+                    state['raised'] += 1
+                    raise pyqueue.Full          # "nobody took a batch for `timeout` seconds"
+                gate.set()                      # the workers get free again
+            if state['kill'] and timeout is not None and self.full():
+                raise pyqueue.Full
+            try:
+                pyqueue.Queue.put(self, item, True, 20 if timeout is None else max(timeout, 20))
+            except pyqueue.Full:
+                if item is None:
+                    raise
+                raise core.HarnessError('hand-off harness: queue not drained within 20 s')
+
+    class StubWorker(threading.Thread):
+        def __init__(self, task, tiles_queue, conf):
+            threading.Thread.__init__(self)
+            self.daemon = True
+            self.q = tiles_queue
+
+        def run(self):
+            while True:
+                if not gate.wait(30):
+                    return
+                if state['kill']:
+                    return
+                try:
+                    item = self.q.get(timeout=0.02)
+                except pyqueue.Empty:
+                    continue
+                if item is None:
+                    return
+                with lock:
+                    received.append(item)
+
+    class Logger(object):
+        steps = 0
+
+        def log_step(self, progress):
+            Logger.steps += 1
+
+    handed = []
+    out = {}
+    old_queue = seeder.queue_class
+    seeder.queue_class = ScriptedQueue
+    seed_log = logging.getLogger('mapproxy.seed.seeder')
+    old_level = seed_log.level
+    seed_log.setLevel(logging.ERROR)         # "no workers left, stopping" is expected in the dead-pool cases
+    pool = None
+    try:
+        pool = seeder.TileWorkerPool(object(), StubWorker, size=case['size'], dry_run=False,
+                                     progress_logger=Logger() if case['progress_logger'] else None)
+        for i, b in enumerate(case['batches']):
+            tiles = [(i, j, 7) for j in range(b['tiles'])]
+            if b['pause']:
+                gate.clear()
+            state['fulls'] = b['full']
+            pool.process(tiles, None)
+            handed.append(tiles)
+        state['fulls'] = 0
+        if case['dead_at'] == 'end':
+            # all workers die with a full queue: the next batch cannot be handed over, the pool has to say so
+            state['kill'] = True
+            gate.set()
+            for w in pool.procs:
+                w.join(20)
+            filler = 0
+            try:
+                while filler < 2 * case['size'] + 2:
+                    filler += 1
+                    pool.process([(999, filler, 7)], None)
+                out[SIG_HANDOFF_DEAD] = ('all %d workers are dead and the queue is full, but process() returned '
+                                         'normally %d times' % (case['size'], filler))
+            except seeder.SeedInterrupted:
+                pass
+        else:
+            gate.set()
+            pool.stop()
+            for w in pool.procs:
+                if w.is_alive():
+                    raise core.HarnessError('hand-off harness: worker still alive after stop()')
+            got = sorted(received)
+            lost = [t for t in handed if t not in got]
+            if lost:
+                out[SIG_HANDOFF_LOST] = ('%d of %d batches given to TileWorkerPool.process() never reached a worker (pool size %d, '
+                                         'queue full at hand-over %d times), e.g. %r'
+                                         % (len(lost), len(handed), case['size'], state['raised'], lost[0]))
+            if len(got) > len(set(map(tuple, got))) or len(got) > len(handed):
+                out[SIG_HANDOFF_DUP] = '%d batches handed, %d received by workers' % (len(handed), len(got))
+    finally:
+        seeder.queue_class = old_queue
+        seed_log.setLevel(old_level)
+        state['kill'] = True
+        gate.set()
+        if pool is not None:
+            for w in pool.procs:
+                if w.is_alive():
+                    try:
+                        pool.tiles_queue.put_nowait(None)
+                    except Exception:
+                        pass
+            for w in pool.procs:
+                w.join(5)
+    info = {'nontrivial': state['raised'] > 0,
+            'classes': ['handoff:pool-size-%d' % case['size'], 'handoff:queue-full-events:' + _bucket(state['raised']),
+                        'handoff:' + ('dead-pool' if case['dead_at'] else 'stop')]}
+    return out, info
+
+
+def check_handoff(case, st_):
+    out, info = run_handoff(case)
+    st_.case(key=case, nontrivial=info['nontrivial'], classes=info['classes'], sample=case if info['nontrivial'] else None)
+    best = st_.extra.setdefault('_best', {})
+    size = (len(case['batches']), len(json.dumps(case)))
+    for sig in PRIORITY:
+        if sig in out and (sig not in best or size < best[sig][0]):
+            best[sig] = (size, out[sig], case)
+    return None
+
+
 def random_shard(shard, nshards, seed, tier):
     st_ = core.Stats()
     n = int((N_QUICK if tier == 'quick' else N_THOROUGH) * float(os.environ.get('VERIF_C11_SCALE') or 1)) // nshards
     core.hyp_search(specs(), check_spec, st_, max_examples=n, seed=seed, shrink=False)
+    core.hyp_search(handoff_specs(), check_handoff, st_, max_examples=(60 if tier == 'quick' else 1500), seed=seed, shrink=False)
     for sig, (size, msg, case) in st_.extra.pop('_best', {}).items():
         v = core.Violation(sig, msg, case)
         v.size = size
@@ -1338,7 +1713,10 @@ def run(tier, seed, stats):
 
 def replay(case, stats):
     """Re-execute one concrete case; nothing is excused (an open finding shows up as KNOWN-FINDING)."""
-    out, info = evaluate(_normalise(case), stats, excuse=(), size_guard=False)
+    if case.get('handoff'):
+        out, info = run_handoff(_normalise(case))
+    else:
+        out, info = evaluate(_normalise(case), stats, excuse=(), size_guard=False)
     if info is not None:
         stats.case(key=case, nontrivial=info['nontrivial'], classes=info['classes'])
     return [core.Violation(sig, out[sig], case) for sig in PRIORITY if sig in out]
